@@ -522,7 +522,8 @@ def infix_operands(prog, R, rid, only=None):
     protected by a condition on that operand."""
     R.rule(rid, "in every _print_pow, an operand written next to an infix "
                 "operator goes through parenthesizeLE/LT (or sits inside a "
-                "call's parentheses)")
+                "call's parentheses), and the text's top-level operator is "
+                "the power operator (or the reciprocal's `/`)")
     fs = [f for f in prog.functions.values()
           if f["n"] == "_print_pow" and f.get("body")
           and not f.get("dependent")
@@ -600,6 +601,46 @@ def infix_operands(prog, R, rid, only=None):
                         "parentheses and the text means a different "
                         "expression" % (short(f["qn"]), refs[0],
                                         (pl if after_op else nl).strip()))
+    # top-level operator of the text: Precedence reports Pow for every Pow
+    # node, so outside call parentheses _print_pow may write only its own
+    # power operator; the reciprocal branch (exponent -1, "1/x") is the one
+    # accepted exception: a Mul prints its negative powers itself and every
+    # other parent either parenthesises a Pow-level operand or wraps it in
+    # call parentheses
+    LINEAR = {"StrPrinter", "JuliaStrPrinter", "SbmlPrinter",
+              "C89CodePrinter", "C99CodePrinter", "JSCodePrinter",
+              "MetalCodePrinter", "BarePowPrinter"}
+    for f in sorted(fs, key=lambda f: f["qn"]):
+        if short(f.get("cls") or "").split("::")[-1] not in LINEAR:
+            continue
+        acc = []
+        branches(f["body"].get("s", ()), [], acc)
+        for guards, items in acc:
+            depth = 0
+            for it in items:
+                if it.get("k") != "lit" or it.get("t") != "str":
+                    continue
+                txt = (it.get("v") or "").replace("**", "^")
+                for ch in txt:
+                    if ch == "(":
+                        depth += 1
+                    elif ch == ")":
+                        depth -= 1
+                    elif depth == 0 and ch in "*/+-":
+                        recip = ch == "/" and any(
+                            pol and c is not None and c.get("n") == "eq"
+                            and "minus_one" in show(c) for c, pol in guards)
+                        key = "%s:top-level `%s`" % (short(f["qn"]), ch)
+                        R.instance(rid, key)
+                        if not recip:
+                            R.violation(
+                                rid, key, prog.loc(f, it.get("l")),
+                                "%s writes the operator `%s` outside any "
+                                "parentheses: the text binds more loosely "
+                                "than the Pow that Precedence reports for "
+                                "the node, so a parent that divides by it "
+                                "or raises it to a power omits the "
+                                "parentheses" % (short(f["qn"]), ch))
     R.floor("_print_pow overriders inspected", len(fs), 2 if only else 7)
     if only is None:
         R.floor("positive control (verif_positive::BarePowPrinter) "
